@@ -7,7 +7,8 @@ import PcbV.Model.ClearChain
   mem       total,stack,codeStart,progSize,garbageBytes,line1.line2…   (lines of the current program)
   deftype   26 sigils;  base  - | 0 | 1 | 0d (set by DIM)
   scalars   name=val;…   names hex; val = hex bytes of a number, S<hex> string in string space,
-            L<hex> string literal inside the program text
+            L<hex> string literal inside the program text (or FIELD buffer), E = empty string computed at
+            run time (zero length, same address as the string stored just before it)
   arrays    name=d1.d2=cell,cell,…;…
   fns       names hex, comma separated;  interp  gosub,for,while,onerr,errnum,errpos,math,events,data,seed,runmode
   Reply     ok|err <n> followed by the dump of the state after the operation.
@@ -37,6 +38,9 @@ def parseCell (t : String) (b : Build) : Option (Cell × Build) :=
     if v.isEmpty then pure (.str ⟨0, 0⟩, b) else
     let cur := b.current - v.length
     pure (.str ⟨v.length, cur + 1⟩, { b with strs := (cur + 1, v) :: b.strs, current := cur })
+  | ['E'] =>
+    -- an empty string computed at run time: zero length, address of the string allocated just before it
+    pure (.str ⟨0, b.current + 1⟩, b)
   | 'L' :: r => do
     let v ← ofHex (String.ofList r)
     pure (.str ⟨v.length, b.nextCode⟩, { b with code := (b.nextCode, v) :: b.code, nextCode := b.nextCode + 1 })
